@@ -76,9 +76,9 @@ func buildStates() []*state {
 		[]string{"SETCHAN", "chan1", "NEARBY", "fleet", "FENCE", "POINT", "33.5", "-112.1", "5000"},
 		[]string{"SETCHAN", `ch"an`, "META", `m"k`, "v\\\x01\xff", "META", "zz", "<>", "EX", "90000", "WITHIN", "fleet", "FENCE", "DETECT", "enter,exit", "COMMANDS", "set,del", "BOUNDS", "33", "-113", "34", "-112"},
 		[]string{"SETCHAN", "chobj", "INTERSECTS", "fleet", "WHERE", "speed", "1", "100", "FENCE", "OBJECT", `{"type":"Polygon","coordinates":[[[-112.2,33.4],[-112.2,33.6],[-112.0,33.6],[-112.0,33.4],[-112.2,33.4]]]}`},
-		[]string{"SETHOOK", "hook1", "http://127.0.0.1:9/a?b=\"c\"", "NEARBY", "fleet", "MATCH", "truck*", "FENCE", "POINT", "33.5", "-112.1", "100"},
-		[]string{"SETHOOK", "hk\xff2", "http://127.0.0.1:9/x,http://127.0.0.1:9/y", "WITHIN", "strs", "FENCE", "BOUNDS", "1", "1", "2", "2"},
-		[]string{"SETHOOK", "roamer", "http://127.0.0.1:9/r", "NEARBY", "fleet", "FENCE", "ROAM", "fleet", "*", "1000"},
+		[]string{"SETHOOK", "hook1", "http://127.0.0.1:9/a?b=\"c\"", "NEARBY", "nohits", "MATCH", "truck*", "FENCE", "POINT", "33.5", "-112.1", "100"},
+		[]string{"SETHOOK", "hk\xff2", "http://127.0.0.1:9/x,http://127.0.0.1:9/y", "WITHIN", "nohits", "FENCE", "BOUNDS", "1", "1", "2", "2"},
+		[]string{"SETHOOK", "roamer", "http://127.0.0.1:9/r", "NEARBY", "nohits", "FENCE", "ROAM", "nohits2", "*", "1000"},
 	)
 	pop.IDs["users"] = append(pop.IDs["users"], "u2")
 	pop.Flds = []string{"speed", "name", "props", "load", "flag", "nul", `sp"eed`, "f\x02", "\xfff", "<t>", "age", "props.a", "z", "properties.name"}
@@ -322,8 +322,8 @@ func validShapes(cmd string, p pick) [][]string {
 	case "HOOKS", "CHANS":
 		return [][]string{{cmd, "*"}, {cmd, p.glob()}, {cmd, "h*"}, {cmd, "c*"}}
 	case "SETHOOK":
-		return [][]string{{"SETHOOK", p.of(nasty, "h"), "http://127.0.0.1:9/" + "h", "NEARBY", k, "FENCE", "POINT", "1", "2", "3"},
-			{"SETHOOK", "h2", "http://127.0.0.1:9/h", "META", p.of(nasty, "m"), p.of(nasty, "v"), "WITHIN", k, "FENCE", "DETECT", "inside", "BOUNDS", "1", "2", "3", "4"}}
+		return [][]string{{"SETHOOK", p.of(nasty, "h"), "http://127.0.0.1:9/" + "h", "NEARBY", "nohits", "FENCE", "POINT", "1", "2", "3"},
+			{"SETHOOK", "h2", "http://127.0.0.1:9/h", "META", p.of(nasty, "m"), p.of(nasty, "v"), "WITHIN", "nohits", "FENCE", "DETECT", "inside", "BOUNDS", "1", "2", "3", "4"}}
 	case "SETCHAN":
 		return [][]string{{"SETCHAN", p.of(nasty, "c"), "NEARBY", k, "FENCE", "POINT", "1", "2", "3"}, {"SETCHAN", "c2", "INTERSECTS", k, "FENCE", "NODWELL", "OBJECT", `{"type":"Point","coordinates":[1,2]}`}}
 	case "DELHOOK", "PDELHOOK":
